@@ -76,7 +76,7 @@ def run_one(schema: dict, rng, exercise: int) -> dict:
         alltext = "\n".join(rec["code"] for rec in sr.programs)
         seen_rc = set()
         def _ident_case(t):
-            # kernel K43: the real get_type_name_identifier on this type (rendering -> pasted text, registered alias)
+            # kernel K44: the real get_type_name_identifier on this type (rendering -> pasted text, registered alias)
             if len(ident_cases) >= 80:
                 return
             try:
